@@ -28,13 +28,14 @@ LEVEL_TEXT = ("Exploration over the layout product: the header scanner's behavio
 LEVEL_NOTE = "Trusts ref_header.py / ref_sgml.py. Files are built from bytes the generator controls; real FI quirks outside the listed layouts are out of scope."
 DESIGN_REF = "DESIGN.md §3 C05"
 EXHAUSTIVE = {"thorough": "full v1 layout product (5 separators x 3 colon-blank x 4 leading-blank x 6 gaps x compression x 9 encoding pairs) and v2 product (2 x 32 per-attribute quote styles x 3x3 breaks x 7 versions)"}
-MIN_COUNTERS = {"quick": {"big_bodies": 40, "mojibake_bodies": 100, "v1_files": 2500, "v2_files": 900, "after_broken_file": 300, "nonascii_bodies": 800, "tree_checked": 2500},
+MIN_COUNTERS = {"quick": {"big_bodies": 40, "mojibake_bodies": 60, "v1_files": 2500, "v2_files": 900, "after_broken_file": 300, "nonascii_bodies": 800, "tree_checked": 2500},
                 "thorough": {"big_bodies": 150, "mojibake_bodies": 1000, "v1_files": 35000, "v2_files": 10000, "after_broken_file": 4000, "nonascii_bodies": 10000, "tree_checked": 35000}}
 
 SEPS = {"crlf": "\r\n", "lf": "\n", "cr": "\r", "none": "", "blank": " "}
 CODECS = {"ISO-8859-1": "latin_1", "1252": "cp1252", "NONE": "utf_8"}
 SPECIALS = {"latin_1": "éÿ¡©ü", "cp1252": "€’…œé", "utf_8": "€é汉😀’ÿ"}
 UIDCHARS = "ABCXYZabcxyz0189_-"
+KEYWORD_UIDS = ["NEWFILEUID", "OLDFILEUID", "xNEWFILEUIDx", "OFXHEADER", "VERSION", "CHARSET", "ENCODING", "OFX", "xml", "100"]
 
 
 def shards(tier):
@@ -237,8 +238,8 @@ def run_shard(ctx):
                 except UnicodeEncodeError:
                     tree, body = body_for(rng, codec, ascii_only)
             F = {"OFXHEADER": "100", "DATA": "OFXSGML", "VERSION": str(rng.choice([102, 103, 151, 160])), "SECURITY": rng.choice(["NONE", "TYPE1"]),
-                 "ENCODING": enc, "CHARSET": cs, "OLDFILEUID": rng.choice(["NONE", "".join(rng.choice(UIDCHARS) for _ in range(rng.randint(1, 36)))]),
-                 "NEWFILEUID": rng.choice(["NONE", "".join(rng.choice(UIDCHARS) for _ in range(rng.randint(1, 36)))])}
+                 "ENCODING": enc, "CHARSET": cs, "OLDFILEUID": rng.choice(["NONE", "".join(rng.choice(UIDCHARS) for _ in range(rng.randint(1, 36))), rng.choice(KEYWORD_UIDS)]),
+                 "NEWFILEUID": rng.choice(["NONE", "".join(rng.choice(UIDCHARS) for _ in range(rng.randint(1, 36))), rng.choice(KEYWORD_UIDS)])}
             if comp:
                 F["COMPRESSION"] = "NONE"
             lead = ("\r\n" if sepn == "crlf" else "\r" if sepn == "cr" else "\n") * leadn
@@ -279,8 +280,8 @@ def run_shard(ctx):
         for r in range(reps):
             tree, body = body_for(rng, "utf_8", ascii_only=rng.random() < 0.15)
             F = {"OFXHEADER": "200", "VERSION": str(ver), "SECURITY": rng.choice(["NONE", "TYPE1"]),
-                 "OLDFILEUID": rng.choice(["NONE", "".join(rng.choice(UIDCHARS) for _ in range(rng.randint(1, 36)))]),
-                 "NEWFILEUID": rng.choice(["NONE", "".join(rng.choice(UIDCHARS) for _ in range(rng.randint(1, 36)))])}
+                 "OLDFILEUID": rng.choice(["NONE", "".join(rng.choice(UIDCHARS) for _ in range(rng.randint(1, 36))), rng.choice(KEYWORD_UIDS)]),
+                 "NEWFILEUID": rng.choice(["NONE", "".join(rng.choice(UIDCHARS) for _ in range(rng.randint(1, 36))), rng.choice(KEYWORD_UIDS)])}
             lead = rng.choice(["", "", "\n", "\r\n\r\n"])
             data = v2_file(F, q1, q2, b1, b2, lead, body, rng.choice(["", "\n"]))
             feat = {"q": ("d" if q1 == '"' else "s") + "".join("d" if q == '"' else "s" for q in q2), "br": f"{len(b1)}{len(b2)}", "lead": len(lead)}
